@@ -27,7 +27,7 @@ ASSUMPTIONS = [
     "compile/eval time and tests/native_tests/quote.hy compares (hy.as-model result): a result holding the substituted values "
     "themselves counts as 'the promoted value' once promoted (STRICT_PROMOTION=True reports it instead)",
     "a generator is unquote-spliced at most once per template (evaluation order of collection elements is unspecified)",
-    "templates whose whole body is ~@x, wrong-arity unquotes, (unquote ...) spelled through a mangling-equal head symbol, and code "
+    "templates whose whole body is ~@x, wrong-arity unquotes, and code "
     "inside live unquotes beyond the listed subset are outside the domain",
 ]
 
@@ -343,9 +343,10 @@ def case_strategy(max_depth):
                 return seq(d, level, qn)
             if k == "quasi":
                 return Q(tmpl(d - 1, level + 1, False, qn + 1))
+            spelled = ["unquote_splice"] if k == "splice" and pick([0, 0, 0, 1]) else []
             if live:
-                return [k, form(min(d, 2), "p" if k == "unquote" else "s")]
-            return [k, tmpl(d - 1, level - 1, True, qn)]
+                return [k, form(min(d, 2), "p" if k == "unquote" else "s")] + spelled
+            return [k, tmpl(d - 1, level - 1, True, qn)] + spelled
 
         root = pick(["seq"] * 6 + ["any"] * 2 + ["quasi"])
         t = seq(max_depth, 0, 0) if root == "seq" else tmpl(max_depth, 0, False, 0) if root == "any" else Q(tmpl(max_depth - 1, 1, False, 1))
